@@ -62,15 +62,21 @@ func (e *Env) callersOf(fn *ssa.Function) *callerInfo {
 							if _, isClosure := ci.Common().Value.(*ssa.MakeClosure); !isClosure {
 								inCallPos = ci.Common().Value
 							}
-							info := get(callee)
-							seen := false
-							for _, c := range info.Callers {
-								if c == caller {
-									seen = true
-								}
+							targets := []*ssa.Function{callee}
+							if o := callee.Origin(); o != nil && o != callee {
+								targets = append(targets, o) // a call of an instance is a call of the generic function
 							}
-							if !seen {
-								info.Callers = append(info.Callers, caller)
+							for _, tgt := range targets {
+								info := get(tgt)
+								seen := false
+								for _, c := range info.Callers {
+									if c == caller {
+										seen = true
+									}
+								}
+								if !seen {
+									info.Callers = append(info.Callers, caller)
+								}
 							}
 						}
 					}
@@ -80,6 +86,9 @@ func (e *Env) callersOf(fn *ssa.Function) *callerInfo {
 						}
 						if f, ok := (*op).(*ssa.Function); ok && (*op) != inCallPos {
 							get(f).AsValue = true
+							if o := f.Origin(); o != nil && o != f {
+								get(o).AsValue = true
+							}
 						}
 					}
 				}
@@ -110,6 +119,10 @@ func (e *Env) privateToRec(fn *ssa.Function, base func(*ssa.Function) bool, busy
 		// element (ir/functab.go)
 		callers, ok := ir.TableCallers(fn)
 		if !ok {
+			// an element of a literal table of rows: whoever can hold a function of its shape (ir/globals.go)
+			callers, ok = ir.LiteralHolders(fn)
+		}
+		if !ok || len(callers) == 0 {
 			return false
 		}
 		for _, c := range callers {
@@ -120,7 +133,27 @@ func (e *Env) privateToRec(fn *ssa.Function, base func(*ssa.Function) bool, busy
 		return true
 	}
 	obj, _ := fn.Object().(*types.Func)
-	if obj == nil || obj.Exported() || fn.Synthetic != "" {
+	if o := fn.Origin(); o != nil && o != fn && strings.HasPrefix(fn.Synthetic, "instantiation wrapper") {
+		// an instance of a generic helper: private when the helper is one and every caller of this instance is
+		oo, _ := o.Object().(*types.Func)
+		if oo == nil || !load.IsHelper(oo) {
+			return false
+		}
+		ci := e.callersOf(fn)
+		if ci.AsValue || len(ci.Callers) == 0 {
+			return false
+		}
+		for _, c := range ci.Callers {
+			if c == fn || base(c) {
+				continue
+			}
+			if !e.privateToRec(c, base, busy) {
+				return false
+			}
+		}
+		return true
+	}
+	if obj == nil || !load.IsHelper(obj) || fn.Synthetic != "" {
 		return false
 	}
 	ci := e.callersOf(fn)
@@ -376,7 +409,7 @@ func tableInPkgs(t *facts.Table, rels ...string) bool {
 // property would silently be about a different program than the one built elsewhere: reported as UNDECIDED.
 func (e *Env) buildCoverage() {
 	c := e.C
-	for _, rel := range load.LibPkgs {
+	for _, rel := range e.P.LibRels() {
 		pk := e.P.Lib(rel)
 		if pk == nil {
 			continue
